@@ -4,7 +4,17 @@ import numpy as np
 
 from . import common as C
 
+from translate import solvers as TS11
+from translate import solvers_c12 as TS12
+
 PID = 'C12'
+
+
+def translate():
+    # Gen/Solvers.v: C11's translator (landweber, kaczmarz, pdhg, admm, proximal gradient, ... as programs);
+    # Gen/SolversC12.v: cg, cgn, power method, forward-backward as Gallina over the generic operations
+    return {'Gen/Solvers.v': TS11.translate(), 'Gen/SolversC12.v': TS12.translate()}
+
 SHARD_SIZE = 40
 RULE = ('every anchored solver loop is run on small integer/dyadic problems (rn, constant-weighted rn and '
         'uniform_discr spaces; dense integer matrices incl. ill-conditioned SPD ones, PartialDerivative and scaled identities, '
@@ -23,10 +33,18 @@ ASSUMPTIONS = [
     'random-order kaczmarz, projections, accelerated pdhg (changing steps), l-terms of the primal-dual splittings, '
     'newton/bfgs/nonlinear-cg are outside the model']
 TRUSTED = [
+    'translate/solvers_c12.py (Python ast -> Gallina, symbolic execution with object identity, fail-closed): its statement '
+    'grammar and the mappings v.norm()**2 -> <v,v>, a.inner(b) -> <a,b>, x.lincomb(a,u,b,v) -> a*u+b*v, x /= s -> (1/s)*x, '
+    'E + sum(Li.adjoint(vi) ...) and the L[0].adjoint(..)/for .. += idiom -> left fold over the blocks; the tests it is '
+    'configured to drop (argument validation, callback, isfinite/isnan) or to resolve (use_normal, l is not None, len(L) > 0, '
+    'np.isclose never true); for BacktrackingLineSearch and the final-iteration / empty-L branches of douglas_rachford_pd '
+    'the control skeleton is pinned text, only the formulas are regenerated',
+    'translate/solvers.py + C11/Interp.v + C11/GenProofs.v (property C11) for landweber, kaczmarz, pdhg, admm_linearized, '
+    '(accelerated_)proximal_gradient, steepest_descent: C12/Bridge.v proves the C12 list steps equal to C11\'s models',
     'harness/c12.py: measuring an operator by its matrix on unit vectors, recording callback copies',
     'C12/Model.v list instance (mvec/wdot) and the separable proximal formulas fprox/fcprox (validated by the correspondence)',
-    'power method: the identity  x_norm_k^2 = |B^(k+1) x0|^2 / |B^k x0|^2  between the normalised loop of the code '
-    'and the un-normalised executable model is proved in Coq (pm_normalised_ratio) for the abstract model']
+    'the abstract-space theorems apply to the list steps through the generic definitions (same Gallina term instantiated); '
+    'the transport is PROVED for Landweber and CG (C12/Inst.v, C12/Dim.v), not for the other solvers']
 
 
 # ------------------------------------------------------------------ helpers
@@ -233,9 +251,9 @@ def _lin_cases(rng, tier, cs):
             b = _ivec(rng, m)
             x0 = _ivec(rng, n, -3, 3) if rng.random() < 0.8 else [0.0] * n
             niter = rng.choice([0, 1, 2, 3, 4, 6])
-            if solver != 'SLandweber':
-                # floats iterate on rounding noise once the exact recursion has stopped; that regime is
-                # probed separately (finding cgn-past-convergence-blowup), not part of the model comparison
+            if solver == 'SCG':
+                # floats iterate on rounding noise once the exact recursion has stopped (CG has only exact
+                # `== 0` tests); CGN has a relative stopping test since fix d9e50f5 and is run with any budget
                 niter = min(niter, min(m, n) + 1)
                 if exact_stop:
                     niter = rng.choice([2, 3, 5])   # all arithmetic exact: the `== 0` tests fire in floats too
@@ -680,8 +698,9 @@ def _descent_cases(rng, tier, cs):
                      ls_alpha=C.q(alpha), ls_x=C.qs(x0), ls_d=C.qs(_flat(d)), ls_dd=C.q(dd), ls_res_=res)
         term = 'CLs ' + first
         if a is not None and rng.random() < 0.6:
-            # call the same object again from the point reached: exercises the stored alpha
-            x2 = x + a * d
+            # call the same object again: from the point reached (exercises the stored alpha) or from an UNRELATED
+            # point (the object must not carry anything about the previous point, e.g. a cached function value)
+            x2 = x + a * d if rng.random() < 0.5 else sp.element([float(rng.randint(-16, 16)) / 8 for _ in range(n)])
             g2 = f.gradient(x2)
             d2 = -g2 if rng.random() < 0.7 else g2.copy()
             dd2 = float(g2.inner(d2))
@@ -704,6 +723,18 @@ def _descent_cases(rng, tier, cs):
         tol = rng.choice([1e-16, 0.5, 4.0])
         maxiter = rng.choice([0, 1, 2, 3, 4])
         x0 = _ivec(rng, n, -2, 2)
+        stale = rng.random() < 0.25
+        if stale:
+            # anisotropic bowl, first run along the flat axis (large alpha, high final value), second run lower on the
+            # steep axis: tells apart anything the line-search object might wrongly carry over between runs
+            cq = rng.choice([64.0, 100.0, 25.0])
+            Qm = np.diag([1.0, cq])
+            f = odl.solvers.QuadraticForm(odl.MatrixOperator(Qm), odl.rn(2).zero(), 0.0)
+            ot = '(OQuad %s %s %s %s)' % (C.qss(Qm.tolist()), C.qss(Qm.tolist()), C.qs([0.0, 0.0]), C.q(0.0))
+            od = {'quadratic': 'anisotropic', 'Q': Qm.tolist()}
+            sp, n = f.domain, 2
+            tau, disc, mni, est, alpha, tol, maxiter = 0.75, 0.0078125, 40, True, 1.0, 1e-16, rng.choice([1, 2])
+            x0 = [float(rng.randint(4, 12)), 0.0]
         x = sp.element(x0)
         ls = BacktrackingLineSearch(f, tau=tau, discount=disc, alpha=alpha, max_num_iter=mni, estimate_step=est)
         tr = []
@@ -714,9 +745,27 @@ def _descent_cases(rng, tier, cs):
             err = '(Some RAssert)'
         except ValueError:
             err = '(Some RMaxIter)'
+        second = 'None'
+        if err == 'None' and (stale or rng.random() < 0.6):
+            # reuse the SAME line-search object for a second run from another start (typically with a lower objective
+            # than where the first run stopped): only self.alpha may carry over
+            cands = [[float(rng.randint(-16, 16)) / 8 for _ in range(n)] for _ in range(4)]
+            cands.sort(key=lambda c: float(f(sp.element(c))))
+            x0b = cands[0] if rng.random() < 0.7 else cands[-1]
+            if stale:
+                x0b = [0.0, float(rng.randint(1, 8)) / 32]
+            xb = sp.element(x0b)
+            trb, errb = [], 'None'
+            try:
+                odl.solvers.steepest_descent(f, xb, line_search=ls, maxiter=maxiter, tol=tol, callback=_cb(trb))
+            except AssertionError:
+                errb = '(Some RAssert)'
+            except ValueError:
+                errb = '(Some RMaxIter)'
+            second = '(Some (%s, %s, %s))' % (C.qs(x0b), C.qss(trb), errb)
         term = 'CSd ' + _rec(sd_obj=ot, sd_tau=C.q(tau), sd_disc=C.q(disc), sd_mni=C.nat(mni), sd_est=C.b(est),
                              sd_alpha=C.q(alpha), sd_tol=C.q(tol), sd_maxiter=C.nat(maxiter), sd_x0=C.qs(x0),
-                             sd_trace=C.qss(tr), sd_err=err)
+                             sd_trace=C.qss(tr), sd_err=err, sd_second=second)
         cs.add(term, {'solver': 'steepest_descent+BacktrackingLineSearch', 'objective': od, 'tau': tau,
                       'discount': disc, 'max_num_iter': mni, 'estimate_step': est, 'alpha': alpha, 'tol': tol,
                       'maxiter': maxiter, 'x0': x0, 'err': err},
@@ -942,9 +991,9 @@ def _linear_probes(rng, tier, out):
             cb(x)
             niter = rng.choice([3, 8, 20])
             if solver == 'cgn':
-                # budgets up to the dimension; iterating a converged float CGN further is finding
-                # cgn-past-convergence-blowup (separate deterministic probe below)
-                niter = rng.randint(1, min(m, n))
+                # any budget: the relative stopping test (fix d9e50f5) ends the loop at convergence;
+                # the former blow-up input is kept as a regression probe below
+                niter = rng.choice([1, 3, 8, 20])
                 S.conjugate_gradient_normal(op, x, rhs, niter, callback=cb)
                 om = None
             else:
@@ -1094,6 +1143,109 @@ def _descent_probes(rng, tier, out):
         _P(out, ok, 'steepest-descent-backtracking-%s' % kind,
            'steepest_descent + BacktrackingLineSearch(tau=%r, discount=%r, estimate_step=%r): objective never increases (%s)'
            % (tau, disc, est, err or 'no error'), None, {'objective': od, 'x0': x0, 'vals': vals[:8]})
+
+
+def _linesearch_reuse_probes(rng, tier, out):
+    """one BacktrackingLineSearch(estimate_step=True) object reused (a) for two steepest_descent runs from different
+    starts, (b) with x changed between calls by a projection, (c) called directly at unrelated points: every accepted
+    step must not increase f, f evaluated independently at the ACTUAL current point"""
+    import odl
+    from odl.solvers.util.steplen import BacktrackingLineSearch
+    N = 10 if tier == 'quick' else 50
+    for _ in range(N):
+        n = rng.randint(1, 3)
+        f, _ot, od = _objective(rng, max(n, 2) if rng.random() < 0.3 else n)
+        sp = f.domain
+        m = _size(sp)
+        kind = 'rosenbrock' if 'rosenbrock' in od else 'quadratic-' + od['quadratic']
+        ls = BacktrackingLineSearch(f, tau=rng.choice([0.5, 0.25]), discount=rng.choice([0.01, 0.3]), estimate_step=True)
+        starts = [[float(rng.randint(-24, 24)) / 8 for _ in range(m)] for _ in range(4)]
+        starts.sort(key=lambda c: -float(f(sp.element(c))))         # later runs start LOWER than the earlier ones
+        ok, detail = True, []
+        for x0 in starts[:3]:
+            prev = [float(f(sp.element(x0)))]
+
+            def cb(z, prev=prev):
+                prev.append(float(f(z)))
+            x = sp.element(x0)
+            try:
+                odl.solvers.steepest_descent(f, x, line_search=ls, maxiter=rng.choice([1, 2, 4]), callback=cb)
+            except (ValueError, AssertionError):
+                pass
+            detail.append(prev[:5])
+            ok = ok and all(b <= a for a, b in zip(prev, prev[1:]))
+        _P(out, ok, 'linesearch-object-reused-across-runs-%s' % kind,
+           'one BacktrackingLineSearch(estimate_step=True) reused for three steepest_descent runs from different starts: '
+           'no accepted step increases the objective', None, {'objective': od, 'starts': starts[:3], 'values': detail})
+        # (b) projection moving x between the line-search calls, (c) direct calls at unrelated points
+        ls2 = BacktrackingLineSearch(f, tau=0.5, discount=0.01, estimate_step=True)
+        ok2 = True
+        for _k in range(4):
+            x = sp.element([float(rng.randint(-24, 24)) / 8 for _ in range(m)])
+            g = f.gradient(x)
+            dd = -float(g.inner(g))
+            if dd == 0:
+                continue
+            try:
+                a = ls2(x, -g, dd)
+            except (ValueError, AssertionError):
+                continue
+            ok2 = ok2 and float(f(x - a * g)) <= float(f(x))
+        _P(out, ok2, 'linesearch-object-reused-at-unrelated-points-%s' % kind,
+           'BacktrackingLineSearch(estimate_step=True) called at unrelated points: f(x + alpha d) <= f(x) with f(x) '
+           'evaluated independently at the point of the call', None, {'objective': od})
+        lo = -1.0
+        vals = []
+        x = sp.element(starts[0])
+        ls3 = BacktrackingLineSearch(f, tau=0.5, discount=0.01, estimate_step=True)
+        state = {'before': None, 'ok': True}
+
+        def proj(z):
+            z[:] = np.maximum(np.asarray(z), lo)      # changes x AFTER the accepted step
+        # steepest_descent applies projection after the update: monitor the line-search call itself
+        real = ls3.__call__
+
+        def watched(xx, dirn, ddv):
+            a = real(xx, dirn, ddv)
+            state['ok'] = state['ok'] and float(f(xx + a * dirn)) <= float(f(xx))
+            return a
+        try:
+            odl.solvers.steepest_descent(f, x, line_search=watched, maxiter=4, projection=proj)
+        except (ValueError, AssertionError):
+            pass
+        _P(out, state['ok'], 'linesearch-with-projection-between-calls-%s' % kind,
+           'steepest_descent with a projection that moves x between line-search calls (estimate_step=True): every step '
+           'the search returns satisfies f(x + alpha d) <= f(x) at the projected point', None, {'objective': od})
+
+
+def _linesearch_stale_state_probes(rng, tier, out):
+    """anisotropic quadratics x^T diag(1, c) x: a first run along the flat direction leaves a LARGE alpha in the object
+    and stops at a HIGH value; a second run with the same object starts lower, on the steep axis.  Whatever the object
+    remembers, every accepted step must decrease f evaluated afresh at the point of the call."""
+    import odl
+    from odl.solvers.util.steplen import BacktrackingLineSearch
+    sp = odl.rn(2)
+    cases = [(100.0, 0.75, [10.0, 0.0], [0.0, 0.2])]
+    N = 6 if tier == 'quick' else 40
+    for _ in range(N):
+        c = rng.choice([64.0, 100.0, 400.0, 25.0])
+        cases.append((c, rng.choice([0.75, 0.5, 0.8]), [float(rng.randint(4, 12)), 0.0],
+                      [0.0, float(rng.randint(1, 8)) / 32]))
+    for c, tau, s1, s2 in cases:
+        f = odl.solvers.QuadraticForm(odl.MatrixOperator(np.diag([1.0, c])))
+        ls = BacktrackingLineSearch(f, tau=tau, discount=0.01, estimate_step=True)
+        rp = ("import odl, numpy as np\nfrom odl.solvers.util.steplen import BacktrackingLineSearch\n"
+              "sp=odl.rn(2); f=odl.solvers.QuadraticForm(odl.MatrixOperator(np.diag([1.0,%r])))\n"
+              "ls=BacktrackingLineSearch(f,tau=%r,discount=0.01,estimate_step=True)\nvals=[]\n"
+              "for x0 in (%r,%r):\n    x=sp.element(x0); run=[float(f(x))]\n"
+              "    try:\n        odl.solvers.steepest_descent(f,x,line_search=ls,maxiter=1,callback=lambda z: run.append(float(f(z))))\n"
+              "    except (ValueError, AssertionError):\n        pass\n    vals.append(run)\n"
+              "observed=vals; ok=all(b<=a for run in vals for a,b in zip(run,run[1:]))\n" % (c, tau, s1, s2))
+        env = {}
+        exec(rp, env)
+        _P(out, env['ok'], 'linesearch-object-reused-from-lower-start',
+           'BacktrackingLineSearch(estimate_step=True) reused for a second steepest_descent run that starts lower on the '
+           'steep axis of x^T diag(1,%g) x: no accepted step increases f (values %r)' % (c, env['vals']), rp)
 
 
 def _kkt_pd(L, fT, gT, x, y):
@@ -1345,18 +1497,24 @@ def probes(rng, tier):
     _linear_probes(rng, tier, out)
     _cgn_blowup_probe(out)
     _descent_probes(rng, tier, out)
+    _linesearch_reuse_probes(rng, tier, out)
+    _linesearch_stale_state_probes(rng, tier, out)
     _nonsmooth_probes(rng, tier, out)
     return out
 
 
-LEVEL_TEXT = ('Proof (partial: CG n-step termination and convergence of the non-smooth solvers are validated, not proved). '
+LEVEL_TEXT = ('Proof (partial: convergence of the non-smooth solvers is validated, not proved). Tie to the source: the loop bodies '
+              'of conjugate_gradient, conjugate_gradient_normal, power_method_opnorm, forward_backward_pd, douglas_rachford_pd and the '
+              'formulas of BacktrackingLineSearch are REGENERATED from /repo on every run (translate/solvers_c12.py) and proved equal to '
+              'the models; landweber, kaczmarz, pdhg, admm_linearized, (accelerated_)proximal_gradient go through the programs C11 '
+              'regenerates (C12/Bridge.v); an edit of a loop body breaks a proof, unknown syntax fails closed. '
               'The loop bodies of landweber, kaczmarz, conjugate_gradient, conjugate_gradient_normal, power_method_opnorm, '
               'pdhg, douglas_rachford_pd, forward_backward_pd, (accelerated_)proximal_gradient, admm_linearized, '
               'BacktrackingLineSearch and steepest_descent are modelled once, generically, in Coq; the same terms are executed '
               'at Q against the implementation (every branch of the loops, 258/1065 cases) and proved at R over ALL '
               'inner-product spaces, operators, starts and iteration budgets: Landweber/CGN residual and Kaczmarz distance '
               'never increase in the admissible step windows, the CG energy error decreases by |r|^4/<p,Ap> per step, '
-              'every power-method estimate is <= the norm, backtracking/steepest descent strictly decrease any objective, '
+              'CG is exact after dimension-many steps, every power-method estimate is <= the norm, backtracking/steepest descent strictly decrease any objective, '
               'proximal gradient decreases f+g for gamma <= 2/L, and for all six non-smooth solvers a point satisfying the '
               'sub-gradient optimality conditions is a fixed point (PDHG and proximal gradient: if and only if). The theorems '
               'are transported to the list model itself (R^n, weighted dot products, matrices; plain transpose proved adjoint). '
